@@ -261,12 +261,51 @@ PROPS["C14"] = dict(
     explanation="recover_public_keys executed from the real AST in scalar mode for a genuine signature (r = x(kG) < n, s = k^-1(e + r d)): the list has at most two keys, contains dG, and each returned key satisfies the verification rule",
 )
 
+def _c08_spki(tier, seed):
+    """SubjectPublicKeyInfo containers around every point encoding, all named curves: raw must be refused with UnexpectedDER, the three legal
+    encodings must load and denote the point, other lengths must give MalformedPointError"""
+    import ecdsa
+    from ecdsa import der as D
+    from spec import der as S
+    found = {}
+    n = 0
+    name = "keys.VerifyingKey.from_der#accepted-only-canonical-SubjectPublicKeyInfo-of-a-valid-point"
+    for cv in ecdsa.curves.curves:
+        vk = ecdsa.SigningKey.from_secret_exponent(7 % cv.order or 1, cv).verifying_key
+        pt = (vk.pubkey.point.x(), vk.pubkey.point.y())
+        alg = S.enc_seq(S.enc_oid((1, 2, 840, 10045, 2, 1)) + S.enc_oid(cv.oid))
+        plen = (cv.curve.p().bit_length() + 7) // 8
+        cases = [(e, vk.to_string(e), "accept" if e != "raw" else "UnexpectedDER") for e in ("raw", "uncompressed", "compressed", "hybrid")]
+        for L in sorted(set([2 * plen - 1, 2 * plen + 2, 2 * cv.baselen, 2 * cv.baselen + 2, plen, plen + 2])):
+            if L not in (2 * plen, 2 * plen + 1, plen + 1):
+                cases.append(("%d octets" % L, b"\x04" + b"\x01" * (L - 1), "MalformedPointError"))
+        for label, pb, want in cases:
+            n += 1
+            spki = S.enc_seq(alg + S.enc_bits(pb, 0))
+            try:
+                k = ecdsa.VerifyingKey.from_der(spki)
+                got = "accept" if (k.pubkey.point.x(), k.pubkey.point.y()) == pt and k.curve == cv else "accepted another point"
+            except D.UnexpectedDER:
+                got = "UnexpectedDER"
+            except ecdsa.keys.MalformedPointError:
+                got = "MalformedPointError"
+            except Exception as e:
+                got = "raised %s" % type(e).__name__
+            if got != want:
+                found.setdefault(name, (dict(string=spki), "%s, %s point in the BIT STRING: %s, expected %s" % (cv.name, label, got, want)))
+    return n, found, [dict(containers=n)]
+
+
 PROPS["C08"] = dict(
     level="other",
     functions=["ecdsa.ecdsa.Public_key.__init__", "ecdsa.ecdsa.point_is_valid", "ecdsa.keys.VerifyingKey.from_public_point", "ecdsa.keys.VerifyingKey.from_string",
-               "ecdsa.ellipticcurve.CurveFp.contains_point", "ecdsa.numbertheory.square_root_mod_prime", "ecdsa.numbertheory.jacobi", "ecdsa.util.string_to_number"],
+               "ecdsa.ellipticcurve.CurveFp.contains_point", "ecdsa.numbertheory.square_root_mod_prime", "ecdsa.numbertheory.jacobi", "ecdsa.util.string_to_number",
+               # the property also speaks of keys "inside a DER/PEM SubjectPublicKeyInfo (all but raw)": the container loader's own contract is part of it (seed C08/3)
+               "ecdsa.keys.VerifyingKey.from_der"],
     lemmas=[],
-    bounded=[dict(function="ecdsa.keys.VerifyingKey.from_string", role="CPython cross-check against an independent SEC 1 / X9.62 decoder (this is what exhibited finding F7 before its repair)", bound="17 named curves x (G, 2G, (n-1)G, a random multiple, 6 (quick) / 40 (thorough) curve points found by x-scan) x 13 encodings (4 valid forms, wrong parity, wrong prefix, wrong lengths, y+1, -y) + out-of-range coordinates", budget_s={"quick": 12, "thorough": 300})],
+    bounded=[dict(function="ecdsa.keys.VerifyingKey.from_string", role="CPython cross-check against an independent SEC 1 / X9.62 decoder (this is what exhibited finding F7 before its repair)", bound="17 named curves x (G, 2G, (n-1)G, a random multiple, 6 (quick) / 40 (thorough) curve points found by x-scan) x 13 encodings (4 valid forms, wrong parity, wrong prefix, wrong lengths, y+1, -y) + out-of-range coordinates", budget_s={"quick": 12, "thorough": 300}),
+             dict(function="ecdsa.keys.VerifyingKey.from_der", label="SubjectPublicKeyInfo containers around every point encoding", role="concretiser / CPython cross-check of the proved container contract",
+                  bound="17 named curves x (raw, uncompressed, compressed, hybrid, six wrong lengths around 2*len(p) and 2*len(n)) inside a canonical SubjectPublicKeyInfo", run=_c08_spki)],
     min_obligations=20,
     trusted_base=["coordinate world: INSUB(x, y) stands for `n * point == INFINITY` computed in the legacy affine class, through the contract of Point.__mul__ (k-fold sum in the true group, points of order 2 included: C07) and Point.__eq__ (C06); on cofactor-1 curves every curve point is in <G> (SEC 1 3.2.2.1)",
                   "contract of square_root_mod_prime and of jacobi (C15; the Legendre clause is discharged from the Jacobi-symbol lemmas)", "byte-string axioms; canonical polynomial form of x mod p arguments (sympy)"],
